@@ -1,9 +1,160 @@
-(* C01 — B-tree is a sorted set under every operation history: property theorems only. *)
-From Coq Require Import ZArith List Bool.
-From Zix Require Import BTreeSpec BTreeModel.
+(* C01 — B-tree is a sorted set under every operation history.  Property theorems only.
+
+   Setting (see BTreeModel.v / BTreeProofsBase.v / BTreeProofsHist.v): (L, I) = (ZIX_BTREE_LEAF_VALS,
+   ZIX_BTREE_INODE_VALS) with I = L / 2 and 3 <= I (every page size >= 64 bytes with 8-byte pointers); elements are
+   opaque and ordered by an integer rank (any total preorder on the finitely many elements of a history);
+   allocation requests are answered by an arbitrary script [o : list bool]; a history is a list of calls
+   [OInsert o e | ORemove e | OFind e | OClear d]; [run] executes it on the model from the empty tree.
+   [Inv rank L I t] is, literally (BTreeProofsBase.Inv):
+     (exists h, root_ok L I h (root t))      all leaves at depth h; every non-root page holds between
+                                             (max+1)/2-1 and max values; an internal root holds >= 1 value;
+                                             every internal page has (values + 1) children; root <= max values
+     /\ asc rank (elements (root t))         the in-order listing is strictly ascending
+     /\ size t = Z.of_nat (length (elements (root t)))     the size field is the cardinality. *)
+From Coq Require Import ZArith List Bool Arith Permutation.
+From Zix Require Import BTreeSpec BTreeModel BTreeProofsBase BTreeProofsIter BTreeProofsInsert BTreeProofsRemove
+  BTreeProofsFind BTreeProofsMisc BTreeProofsHist.
 Import ListNotations.
 
-(* placeholder while the proofs are being built: the empty tree lists nothing *)
-Theorem btree_empty_elements : forall (elt : Type), elements elt (root elt (empty_tree elt)) = [].
+(* the invariant holds after every history, whatever the allocation scripts *)
+Theorem btree_inv_reachable :
+  forall (elt : Type) (rank : elt -> Z) (dflt : elt) (L I : nat), I = L / 2 -> 3 <= I ->
+  forall ops : list (op elt), Inv rank L I (run rank dflt L I ops).
+Proof. exact inv_reachable. Qed.
+Print Assumptions btree_inv_reachable.
+
+(* insert: SUCCESS iff no element of that rank is stored (then the listing is the spec's), EXISTS otherwise and
+   NO_MEM only if an allocation failed -- listing unchanged in both cases although pages may have been split;
+   the invariant (hence the size field) is re-established; the comparator only ever sees stored elements *)
+Theorem btree_insert_refines :
+  forall (elt : Type) (rank : elt -> Z) (dflt : elt) (L I : nat), I = L / 2 -> 3 <= I ->
+  forall (o : list bool) (t : tree elt) (e : elt), Inv rank L I t ->
+    let '(st, t', o', lg) := insert rank dflt L I o t e in
+    Inv rank L I t' /\
+    (st = SUCCESS \/ st = EXISTS \/ st = NO_MEM) /\
+    (st <> NO_MEM -> (st, elements (root t')) = set_insert elt rank (elements (root t)) e) /\
+    (st = NO_MEM -> elements (root t') = elements (root t)) /\
+    ((forall b, In b o -> b = true) -> st <> NO_MEM) /\
+    (forall x, In x lg -> In x (elements (root t))).
+Proof. exact insert_refines. Qed.
+Print Assumptions btree_insert_refines.
+
+(* remove: SUCCESS with the stored element of that rank, or NOT_FOUND with the listing unchanged (pages may have
+   been rotated or merged on the way) *)
+Theorem btree_remove_refines :
+  forall (elt : Type) (rank : elt -> Z) (dflt : elt) (L I : nat), I = L / 2 -> 3 <= I ->
+  forall (t : tree elt) (e : elt), Inv rank L I t ->
+    let '(st, out, t', it, lg) := remove rank dflt L I t e in
+    Inv rank L I t' /\
+    (st, out, elements (root t')) = set_remove elt rank (elements (root t)) (rank e) /\
+    (forall x, In x lg -> In x (elements (root t))).
+Proof. exact remove_refines. Qed.
+Print Assumptions btree_remove_refines.
+
+Theorem btree_find_refines :
+  forall (elt : Type) (rank : elt -> Z) (dflt : elt) (L I : nat), I = L / 2 -> 3 <= I ->
+  forall (t : tree elt) (e : elt), Inv rank L I t ->
+    let '(st, it, lg) := find rank dflt t e in
+    match set_find elt rank (elements (root t)) (rank e) with
+    | Some x => st = SUCCESS /\ exists p, it = IAt p /\ valid (root t) p /\
+                  nth_error (elements (root t)) (pos (root t) p) = Some x /\ iter_get dflt (root t) it = x
+    | None => st = NOT_FOUND /\ it = IEnd
+    end.
+Proof. exact find_refines. Qed.
+Print Assumptions btree_find_refines.
+
+Theorem btree_clear_refines :
+  forall (elt : Type) (rank : elt -> Z) (dflt : elt) (L I : nat), I = L / 2 -> 3 <= I ->
+  forall (t : tree elt) (d : bool),
+    fst (clear t d) = empty_tree /\ Inv rank L I (fst (clear t d)) /\
+    elements (root (fst (clear t d))) = [] /\ size (fst (clear t d)) = 0%Z.
+Proof. exact clear_refines. Qed.
+Print Assumptions btree_clear_refines.
+
+(* along a whole history the listing follows the sorted-list spec (an insert that reported NO_MEM leaves the set
+   alone); without allocation failures it is the plain fold of set_insert / set_remove / clear *)
+Theorem btree_history_refines :
+  forall (elt : Type) (rank : elt -> Z) (dflt : elt) (L I : nat), I = L / 2 -> 3 <= I ->
+  forall ops : list (op elt),
+    elements (root (run rank dflt L I ops)) = spec_run_from rank dflt L I empty_tree [] ops /\
+    (Forall no_fail ops -> elements (root (run rank dflt L I ops)) = fold_left (plain_step rank) ops []).
+Proof.
+  intros elt rank dflt L I HI HI3 ops. split.
+  - exact (run_refines_gen elt rank dflt L I HI HI3 ops).
+  - exact (run_refines elt rank dflt L I HI HI3 ops).
+Qed.
+Print Assumptions btree_history_refines.
+
+(* begin + repeated increment yields exactly the listing, then the end iterator *)
+Theorem btree_iteration :
+  forall (elt : Type) (rank : elt -> Z) (dflt : elt) (L I : nat), I = L / 2 -> 3 <= I ->
+  forall t : tree elt, Inv rank L I t ->
+    walk dflt (S (length (elements (root t)))) (root t) (btree_begin t) = elements (root t).
+Proof. exact iteration. Qed.
+Print Assumptions btree_iteration.
+
+(* clear/free with a destroy function call it exactly once per stored element (the call log is a permutation of
+   the listing); without one, not at all *)
+Theorem btree_destroy_once :
+  forall (elt : Type) (rank : elt -> Z) (dflt : elt) (L I : nat), I = L / 2 -> 3 <= I ->
+  forall t : tree elt, Inv rank L I t ->
+    Permutation (snd (clear t true)) (elements (root t)) /\ snd (clear t false) = [].
+Proof. exact destroy_once. Qed.
+Print Assumptions btree_destroy_once.
+
+(* height law: a tree of height h >= 2 holds at least 2*m*c^(h-2) - 1 elements, m = (L+1)/2, c = (I+1)/2 *)
+Theorem btree_height_law :
+  forall (elt : Type) (rank : elt -> Z) (dflt : elt) (L I : nat), I = L / 2 -> 3 <= I ->
+  forall t : tree elt, Inv rank L I t -> 2 <= height (root t) ->
+    2 * ((L + 1) / 2) * ((I + 1) / 2) ^ (height (root t) - 2) <= length (elements (root t)) + 1.
+Proof. exact height_law. Qed.
+Print Assumptions btree_height_law.
+
+(* a lookup costs at most (floor(log2 L) + 1) comparisons per level *)
+Theorem btree_find_cost :
+  forall (elt : Type) (rank : elt -> Z) (dflt : elt) (L I : nat), I = L / 2 -> 3 <= I ->
+  forall (t : tree elt) (e : elt), Inv rank L I t ->
+    length (snd (find rank dflt t e)) <= height (root t) * (Nat.log2 L + 1).
+Proof. exact find_cost. Qed.
+Print Assumptions btree_find_cost.
+
+(* FULL STATEMENT (does not hold, see btree_depth_refuted):
+     forall H, 1 <= H -> forall ops p, valid (root (run ops)) p -> length p <= H
+   i.e. no element is ever deeper than ZIX_BTREE_MAX_HEIGHT levels.  What holds is the bound below the capacity
+   cap(L,I,H) = 2*m*c^(H-1) - 1, the least size at which a tree of height H+1 exists: *)
+Theorem btree_depth_le_max_height_partial :
+  forall (elt : Type) (rank : elt -> Z) (dflt : elt) (L I : nat), I = L / 2 -> 3 <= I ->
+  forall (t : tree elt) (H : nat), Inv rank L I t -> 1 <= H ->
+    length (elements (root t)) < 2 * ((L + 1) / 2) * ((I + 1) / 2) ^ (H - 1) - 1 ->
+    height (root t) <= H /\ forall p, valid (root t) p -> length p <= H.
+Proof.
+  intros elt rank dflt L I HI HI3 t H Hinv HH Hsz. split.
+  - exact (height_le_max elt rank dflt L I HI HI3 t H Hinv HH Hsz).
+  - exact (depth_le_max elt rank dflt L I HI HI3 t H Hinv HH Hsz).
+Qed.
+Print Assumptions btree_depth_le_max_height_partial.
+
+(* page size 64: (L, I) = (6, 3), ZIX_BTREE_MAX_HEIGHT = 6.  After inserting 1..260 in ascending order (no
+   allocation failure) the tree has height 7: zix_btree_begin must push a frame at level 6 = MAX_HEIGHT. *)
+Theorem btree_depth_refuted :
+  exists ops : list (op Z),
+    Forall no_fail ops /\
+    let t := run (fun x : Z => x) 0%Z 6 3 ops in
+    height (root t) = 7 /\ exists p, btree_begin t = IAt p /\ length p = 7.
+Proof.
+  exists (map (fun k => OInsert [] (Z.of_nat k)) (seq 1 260)). split.
+  - apply Forall_forall. intros x Hx. apply in_map_iff in Hx as [k [<- _]]. cbn. intros b [].
+  - vm_compute. split; [reflexivity|]. eexists. split; reflexivity.
+Qed.
+Print Assumptions btree_depth_refuted.
+
+(* non-vacuity: the four configurations meet the hypotheses; cap(6,3,6) = 191 and cap(510,255,6) > 10^13 *)
+Example configs_ok : (3 = 6 / 2 /\ 3 <= 3) /\ (7 = 14 / 2 /\ 3 <= 7) /\ (15 = 30 / 2 /\ 3 <= 15) /\ (255 = 510 / 2 /\ 3 <= 255).
+Proof. repeat split; try reflexivity; repeat constructor. Qed.
+Example cap_page64 : 2 * ((6 + 1) / 2) * ((3 + 1) / 2) ^ (6 - 1) - 1 = 191.
 Proof. reflexivity. Qed.
-Print Assumptions btree_empty_elements.
+Example history_example :
+  let t := run (fun x : Z => x) 0%Z 6 3
+             (map (fun k => OInsert [] (Z.of_nat k)) (seq 1 40) ++ [ORemove 8%Z; OFind 9%Z; ORemove 8%Z]) in
+  elements (root t) = map Z.of_nat (seq 1 7 ++ seq 9 32) /\ height (root t) = 3 /\ size t = 39%Z.
+Proof. vm_compute. repeat split. Qed.
